@@ -137,10 +137,22 @@ def _big(t):
     return out
 
 
+def _skewed(t):
+    shorts, longs, places = t
+    # many short elements and a few very long ones at generated places (length-aware scheduling of batches)
+    out = list(shorts)
+    for l, p in zip(longs, places):
+        out.insert(p % (len(out) + 1), l)
+    return out
+
+
 def batch_st(elem):
     big = st.tuples(st.lists(st.text(alphabet=NUC, min_size=1, max_size=30), min_size=1, max_size=5), st.integers(1000, 2000)).map(_big)
+    skewed = st.tuples(st.lists(st.text(alphabet=NUC, min_size=5, max_size=30), min_size=64, max_size=300),
+                       st.lists(st.text(alphabet="ACGT", min_size=1500, max_size=6000), min_size=1, max_size=3),
+                       st.lists(st.integers(0, 10_000), min_size=3, max_size=3)).map(_skewed)
     small = st.one_of(st.lists(elem, max_size=50), st.lists(elem, min_size=2, max_size=8))
-    return st.integers(0, 19).flatmap(lambda i: big if i == 0 else small)
+    return st.integers(0, 19).flatmap(lambda i: big if i == 0 else (skewed if i == 1 else small))
 
 
 def oracle_subset(n):
@@ -268,6 +280,16 @@ def chk_cgr(case):
     note(leg, case, any(s for s in seqs) and (len(seqs) >= 2 or any(non_ascii(s) for s in seqs)), cl)
     if bad and berr is None:
         violation(leg, case, "cgr-batch-bad-accepted", "vectorise_batch returned a result although one element holds a bad nucleotide")
+    if bad:
+        # the refusal must leave the object usable: the valid elements alone, on the SAME object, right afterwards
+        good = [s for s, r in zip(seqs, singles) if r is not None]
+        want_good = [r for r in singles if r is not None]
+        try:
+            again = [[tuple(p) for p in row] for row in cc.vectorise_batch(good)]
+        except BaseException as e:  # noqa: BLE001
+            violation(leg, case, "cgr-batch-after-refusal", f"after a refused batch the same object raises {type(e).__name__} on valid sequences")
+        if again != want_good:
+            violation(leg, case, "cgr-batch-after-refusal", f"after a refused batch the same object returns other results for {len(good)} valid sequences (first row has {len(again[0]) if again else 0} points)")
     if not bad:
         if berr is not None:
             violation(leg, case, "cgr-batch-valid-rejected", f"vectorise_batch raised {berr} although every element is valid")
@@ -348,7 +370,71 @@ def chk_long(case):
         violation(leg, case, "long-string-exception", f"{type(e).__name__}: {str(e)[:300]}")
 
 
-CHECKS = {"long-strings": chk_long, "kmer-iterator": chk_kmers, "to-acgt": chk_acgt, "minimiser-iterator": chk_mins, "oligo": chk_oligo, "cgr": chk_cgr, "released-string": chk_released}
+def chk_temps(case):
+    """equal-length strings that live only for the call (a loop over decoded records), every class of the module"""
+    leg = "equal-length-temporaries"
+    begin(leg, case)
+    n, k, w, m, s_size = len(case["seqs"]), case["k"], case["w"], case["m"], case["s"]
+    note(leg, case, n >= 2, ["temporaries", "temporaries>=512" if len(case["seqs"][0]) >= 512 else "temporaries<512"])
+    oc = pk.OligoComputer(case["ok"])
+    cg = pk.CgrComputer(s_size)
+    for i in range(n):
+        # "".join builds a new str object each time; nothing keeps it alive after the call
+        got_k = [tuple(x) for x in pk.KmerGenerator("".join(case["seqs"][i]), k)]
+        got_m = [tuple(x) for x in pk.MinimiserGenerator("".join(case["seqs"][i]), w, m)]
+        got_o = oc.vectorise_one("".join(case["seqs"][i]), case["norm"])
+        s = "".join(case["seqs"][i])
+        want_k = [tuple(x) for x in ORACLE.ask(op="kmers", seq=s, k=k)["ok"]]
+        want_m = [tuple(x) for x in ORACLE.ask(op="mins", seq=s, w=w, m=m)["ok"]]
+        want_o = ORACLE.ask(op="oligo", seq=s, k=case["ok"], norm=case["norm"])["ok"]
+        if got_k != want_k:
+            violation(leg, case, "temporaries-kmer-iterator", f"string {i} of {n} equal-length temporaries: k-mer iterator yields {len(got_k)} items, core {len(want_k)}")
+        if got_m != want_m:
+            violation(leg, case, "temporaries-minimiser-iterator", f"string {i} of {n} equal-length temporaries: minimiser iterator yields {got_m[:3]}, core {want_m[:3]}")
+        if not close(got_o, want_o):
+            violation(leg, case, "temporaries-oligo", f"string {i} of {n} equal-length temporaries: oligo vector differs from the core")
+        wc = ORACLE.ask(op="cgr", seq=s, s=s_size)
+        try:
+            gc_ = [list(p) for p in cg.vectorise_one("".join(case["seqs"][i]))]
+            if "ok" not in wc or gc_ != wc["ok"]:
+                violation(leg, case, "temporaries-cgr", f"string {i} of {n} equal-length temporaries: CGR differs from the core")
+        except ValueError:
+            if "ok" in wc:
+                violation(leg, case, "temporaries-cgr", f"string {i}: ValueError but the core accepts the string")
+
+
+def chk_header_edit(case):
+    """the list returned by get_header() belongs to the caller: editing it must not change later answers"""
+    leg = "header-after-caller-edit"
+    begin(leg, case)
+    k = case["k"]
+    want = ORACLE.ask(op="header", k=k)["ok"]
+    note(leg, case, True, ["header-edit"])
+    a = pk.OligoComputer(k)
+    h = a.get_header()
+    if h != want:
+        violation(leg, case, "header-differs", f"k={k}: header differs from the core")
+    for e in case["edits"]:
+        if e == 0:
+            h.insert(0, "seq_id")
+        elif e == 1:
+            h.append("label")
+        elif e == 2:
+            h.sort(reverse=True)
+        elif e == 3 and h:
+            del h[0]
+        elif e == 4 and h:
+            h[len(h) // 2] = "X"
+        else:
+            h.clear()
+        h2 = a.get_header()
+        h3 = pk.OligoComputer(k).get_header()
+        if h2 != want or h3 != want:
+            violation(leg, case, "header-after-caller-edit", f"k={k}: after the caller edited the list it got (edit {e}), get_header() returns {len(h2)} / {len(h3)} names, expected {len(want)}")
+        h = h2
+
+
+CHECKS = {"equal-length-temporaries": chk_temps, "header-after-caller-edit": chk_header_edit, "long-strings": chk_long, "kmer-iterator": chk_kmers, "to-acgt": chk_acgt, "minimiser-iterator": chk_mins, "oligo": chk_oligo, "cgr": chk_cgr, "released-string": chk_released}
 
 # ------------------------------------------------------------------------------------------------
 # Hypothesis drivers
@@ -363,6 +449,10 @@ def drivers():
         "minimiser-iterator": (wm_st().flatmap(lambda wm: st.fixed_dictionaries({"seq": st.one_of(any_text, long_text(wm[0])), "w": st.just(wm[0]), "m": st.just(wm[1])})), 0.22),
         "oligo": (st.fixed_dictionaries({"seqs": batch_st(any_text), "k": st.integers(1, 6), "norm": st.booleans()}), 0.17),
         "cgr": (st.fixed_dictionaries({"seqs": batch_st(st.one_of(nuc_text, nuc_text, nuc_text, sprinkled, raw_sprinkled, confusable_sprinkled)), "s": S_ST}), 0.17),
+        "equal-length-temporaries": (st.integers(3, 8).flatmap(lambda n: st.sampled_from([30, 64, 150, 250, 511, 512, 513, 600, 1000, 1024]).flatmap(lambda L: st.fixed_dictionaries({
+            "seqs": st.lists(st.lists(st.sampled_from(list("ACGTACGTN")), min_size=L, max_size=L), min_size=n, max_size=n),
+            "k": k_st, "w": st.integers(20, 40), "m": st.integers(1, 20), "ok": st.integers(1, 5), "norm": st.booleans(), "s": S_ST}))), 0.02),
+        "header-after-caller-edit": (st.fixed_dictionaries({"k": st.integers(1, 7), "edits": st.lists(st.integers(0, 5), min_size=1, max_size=4)}), 0.01),
         "long-strings": (st.fixed_dictionaries({
             "unit": st.one_of(st.text(alphabet=NUC + "\u00e9\u20ac", min_size=1, max_size=40), st.text(alphabet="ACGT\u00e9", min_size=1, max_size=9), st.sampled_from(["\u00e9", "A\u00e9", "ACG\U0001F441T", "acgtN"])),
             "bytes": st.sampled_from([1 << 20, (1 << 20) + 7, 1_300_000, 2_100_000]),
